@@ -38,7 +38,11 @@ EXTENDS Naturals, FiniteSets, Sequences, TLC
 CONSTANTS ReqV4, ReqV6, ReqDual,  \* request ids (strings) by requested families
           Reloads,                \* reload ids (strings)
           ToB,                    \* the reloads that find file "B" on disk (the others find "A")
-          Protocol                \* "nested-deferred" | "single" | "per-selection"
+          Bad,                    \* the reloads that find a malformed file: ReloadSubnets returns an error and changes nothing
+          Protocol,               \* "nested-deferred" | "single" | "per-selection"
+          ReloadOrder             \* "load-first": parse the file, then take the write lock (what the code does; a failed load never
+                                  \*               touches the lock);  "lock-first-leak": write lock taken before the file is parsed and
+                                  \*               NOT released on the error path (a deliberately broken instance)
 
 VARIABLES readers, writerWaiting, writerHolding, writer,
           cur,      \* content id of the installed selector ("A" initially)
@@ -52,7 +56,11 @@ VARIABLES readers, writerWaiting, writerHolding, writer,
 
 Requests == ReqV4 \cup ReqV6 \cup ReqDual
 Fam(r) == IF r \in ReqDual THEN "dual" ELSE IF r \in ReqV4 THEN "v4" ELSE "v6"
-Target(m) == IF m \in ToB THEN "B" ELSE "A"
+Target(m) == IF m \in Bad THEN "bad" ELSE IF m \in ToB THEN "B" ELSE "A"
+\* order of a reload's steps
+FirstStep == IF ReloadOrder = "load-first" THEN "load" ELSE "announce"
+AfterLoad == IF ReloadOrder = "load-first" THEN "announce" ELSE "swap"
+AfterAcquire == IF ReloadOrder = "load-first" THEN "swap" ELSE "load"
 
 vars == <<readers, writerWaiting, writerHolding, writer, cur, rpc, held, gen, resp, mpc, loaded, obs>>
 view == <<readers, writerWaiting, writerHolding, writer, cur, rpc, held, gen, resp, mpc, loaded>>
@@ -98,7 +106,7 @@ Init == /\ readers = 0 /\ writerWaiting = FALSE /\ writerHolding = FALSE /\ writ
         /\ held = [r \in Requests |-> 0]
         /\ gen = [r \in Requests |-> [v4 |-> "-", v6 |-> "-"]]
         /\ resp = [r \in Requests |-> [v4 |-> "-", v6 |-> "-"]]
-        /\ mpc = [m \in Reloads |-> "load"]
+        /\ mpc = [m \in Reloads |-> FirstStep]
         /\ loaded = [m \in Reloads |-> "-"]
         /\ obs = [a |-> "Init"]
 
@@ -146,10 +154,13 @@ RUnlock(r) ==
   /\ obs' = [a |-> "RUnlock", p |-> r, f |-> "-"]
 
 \* ---- reload steps ----
+\* parse the subnet file; a malformed file makes ReloadSubnets return its error right here: nothing is installed and
+\* (ReloadOrder = "load-first") the lock was never touched
 Load(m) ==
   /\ LoadEn(m)
-  /\ loaded' = [loaded EXCEPT ![m] = Target(m)]
-  /\ mpc' = [mpc EXCEPT ![m] = "announce"]
+  /\ IF m \in Bad
+       THEN loaded' = loaded /\ mpc' = [mpc EXCEPT ![m] = "done"]
+       ELSE loaded' = [loaded EXCEPT ![m] = Target(m)] /\ mpc' = [mpc EXCEPT ![m] = AfterLoad]
   /\ UNCHANGED <<readers, writerWaiting, writerHolding, writer, cur, rpc, held, gen, resp>>
   /\ obs' = [a |-> "Load", p |-> m, f |-> Target(m)]
 
@@ -163,7 +174,7 @@ Announce(m) ==
 Acquire(m) ==
   /\ AcquireEn(m)
   /\ writerWaiting' = FALSE /\ writerHolding' = TRUE
-  /\ mpc' = [mpc EXCEPT ![m] = "swap"]
+  /\ mpc' = [mpc EXCEPT ![m] = AfterAcquire]
   /\ UNCHANGED <<readers, writer, cur, rpc, held, gen, resp, loaded>>
   /\ obs' = [a |-> "Acquire", p |-> m, f |-> "-"]
 
@@ -218,4 +229,7 @@ MutualExclusion == /\ ~(writerHolding /\ readers > 0)
 \* a selection only ever runs under a read lock; the selector is only swapped under the write lock
 SelectUnderReadLock == \A r \in Requests : NextOp(r).op = "sel" => held[r] > 0
 NoLeakAtEnd == AllDone => (readers = 0 /\ ~writerWaiting /\ ~writerHolding)
+\* C13, a reload that fails changes nothing: it holds no lock once it returned and installed nothing
+FailedReloadHoldsNothing == \A m \in Bad : mpc[m] = "done" => (writer # m /\ loaded[m] = "-")
+FailedReloadInstallsNothing == [][\A m \in Bad : (mpc[m] # "done" /\ mpc'[m] = "done") => cur' = cur]_vars
 =============================================================================
